@@ -57,9 +57,43 @@ Fixpoint oracle_run (seen : bytes) (delivered : list msg) (chunks : list bytes) 
   | _, _ => false
   end.
 
+(* an independent reading of one family of streams, not built from the model's parse_frame: a sequence of complete
+   frames (4-byte length L with 1 <= L <= 65536, then L bytes) none of whose ids is one of the nine BEP3 ids 0..8 (a
+   length of at most 65536 cannot begin like a handshake, whose first byte is 19).  Such messages "with unknown ids are skipped": nothing is
+   delivered, nothing stays buffered, the connection stays up *)
+Fixpoint all_unknown_frames (fuel : nat) (s : bytes) : bool :=
+  match fuel with
+  | O => false
+  | S f =>
+      match s with
+      | [] => true
+      | a :: b :: c :: d :: id :: _ =>
+          let L := ((a * 256 + b) * 256 + c) * 256 + d in       (* nested ifs: vm_compute is call-by-value *)
+          if (1 <=? L) && (L <=? 65536) && negb (id <=? 8) then
+            if 4 + L <=? len s then all_unknown_frames f (skipn (N.to_nat (4 + L)) s) else false
+          else false
+      | _ => false
+      end
+  end.
+Fixpoint unknown_oracle (seen : bytes) (chunks : list bytes) (obs : list (list msg * term)) : bool :=
+  match chunks, obs with
+  | ch :: cs, (ms, t) :: os =>
+      let seen' := seen ++ ch in
+      (if all_unknown_frames (S (length seen')) seen'
+       then match ch, ms, t with
+            | [], [], _ => true
+            | _ :: _, [], TPending 0 => true
+            | _, _, _ => false
+            end
+       else true) &&
+      unknown_oracle seen' cs os
+  | _, _ => true
+  end.
+
 Definition code (c : case) : N :=
   match c with
   | CConn chunks obs =>
-      (if model_run [] chunks obs then 0 else 1) + (if oracle_run [] [] chunks obs then 0 else 2)
+      (if model_run [] chunks obs then 0 else 1) +
+      (if oracle_run [] [] chunks obs && unknown_oracle [] chunks obs then 0 else 2)
   end.
 Definition codes (cs : list case) : list N := map code cs.
